@@ -291,7 +291,8 @@ pub fn gen(out: &mut Out, _sub: &str) {
         let project = irgen::project_of(program.clone());
         let regs: Vec<Variable> = project.register_set.iter().cloned().collect();
         let consts = pigen::constants_of(&program.term.subs[&pigen::sub_tid()]);
-        let inits = inits_json(&pigen::gen_inits(&mut r, &consts, n_inits, &regs));
+        let tests = pigen::tests_of(&program.term.subs[&pigen::sub_tid()]);
+        let inits = inits_json(&pigen::gen_inits(&mut r, &consts, &tests, n_inits, &regs));
         let rec = analyze(&program, &inits, r.next(), i, &mem_cfg);
         if !rec.panic.is_empty() {
             panics += 1;
